@@ -175,7 +175,38 @@ def rule_density_signs(ctx: Ctx) -> None:
                  construct="_stabilizer_to_density_pure: signs of the generators ignored")
 
 
+def rule_equivalency_canonical(ctx: Ctx) -> None:
+    """canon.compare (state equivalence): mixed_stabilizer_equivalency is what the conversions use to validate their result ("is the
+    stabilizer I was given the state of the graph I found?").  Two tableaux describe the same state iff their canonical forms are
+    equal; `tableau1 == tableau2` compares generator lists, so a graph state presented in any other generating set fails validation."""
+    repo = ctx.repo
+    m = repo.module(SRC)
+    fn = repo.anchor(SRC, "mixed_stabilizer_equivalency")
+    ctx.touch(m, fn)
+    canon_names = {a.targets[0].id for a in ast.walk(fn) if isinstance(a, ast.Assign) and isinstance(a.targets[0], ast.Name)
+                   and isinstance(a.value, ast.Call) and call_name(a.value) == "canonical_form"}
+    def canonical(e):
+        return (isinstance(e, ast.Call) and call_name(e) == "canonical_form") or (isinstance(e, ast.Name) and e.id in canon_names)
+    n = 0
+    for c in [x for x in ast.walk(fn) if isinstance(x, ast.Compare) and len(x.ops) == 1 and isinstance(x.ops[0], (ast.Eq, ast.NotEq))]:
+        l, r = c.left, c.comparators[0]
+        if any(isinstance(y, ast.Call) and call_name(y) == "len" for y in (l, r)) or any(isinstance(y, ast.Constant) for y in (l, r)):
+            continue
+        n += 1
+        if canonical(l) and canonical(r):
+            ctx.ok("canon.compare", m, c, what="state equivalence decided on canonical forms")
+        else:
+            ctx.fail("canon.compare", m, c,
+                     f"mixed_stabilizer_equivalency decides state equivalence with `{short(c)}`, a comparison of the generator lists as given: a "
+                     f"graph state presented in another generating set (rows multiplied together) is reported different from itself, so "
+                     f"stabilizer_to_graph(validate=True) raises 'Input stabilizer is not a graph state' for it", func="mixed_stabilizer_equivalency",
+                     construct=f"mixed_stabilizer_equivalency: {short(c, 40)} without canonical forms")
+    if n == 0:
+        raise AnalysisError("mixed_stabilizer_equivalency: no tableau comparison found")
+
+
 def run(ctx: Ctx) -> None:
+    rule_equivalency_canonical(ctx)
     rule_density_signs(ctx)
     rule_helper_kinds(ctx)
     repo = ctx.repo
@@ -292,6 +323,7 @@ def _diag_view(src: str) -> str:
 
 
 KNOCKOUTS = [
+    Knockout("equivalency-raw-compare", SRC, sub_once("        return canonical_form(stab1.copy()) == canonical_form(stab2.copy())", "        return stab1 == stab2"), "canon.compare", "without canonical forms", on_fixed_only=True),
     Knockout("rep-cache", STATE, sub_once("            self._rep_data = conversion_func(tmp_data)", "            if not hasattr(self, '_memo'):\n                self._memo = {}\n            self._memo[self._rep_type] = tmp_data\n            self._rep_data = self._memo[rep_type] if rep_type in self._memo else conversion_func(tmp_data)"), "table.convert", "not computed from the current data"),
     Knockout("density-signs-ignored", SRC, sub_once("        stabilizer_elem = sign * sfu.get_stabilizer_element_by_string(generator)", "        stabilizer_elem = sfu.get_stabilizer_element_by_string(generator)"), "sign.used", "signs of the generators ignored", on_fixed_only=True),
     Knockout("s-to-g-clifford-arg", STATE, sub_once("            graph_list = rc.stabilizer_to_graph(rep.data.to_stabilizer())", "            graph_list = rc.stabilizer_to_graph(rep.data)"), "call.accepts", "receives a CliffordTableau", on_fixed_only=True),
